@@ -1919,7 +1919,7 @@ class Interp:
             if k is not None:
                 return Num((k, ta, tb))
             if isinstance(op, ast.Mod):
-                return Num(("fn", "mod", ("sub", ta, tb)))
+                return Num(("mod", ta, tb))
         if isinstance(a, Opaque) or isinstance(b, Opaque):
             return Opaque(f"binop:{type(op).__name__}")
         raise Unsupported(f"binop {type(op).__name__} on {a!r},{b!r} at {self.site}")
